@@ -8,7 +8,7 @@ from argh import HF, Arg, Config, hx, cat_of, kind_of
 
 PROP = "C18"
 BATCH = 60
-RULE = ("case = one generated configuration of 1..12 arguments (mandatory/optional, hidden, deprecated, replaced-by, short-only/"
+RULE = ("case = one generated configuration of 1..12 arguments (in a quarter of the cases plus the positional argument '-', listed as '--' in the full usage only; mandatory/optional, hidden, deprecated, replaced-by, short-only/"
         "long-only/both keys, long keys of 2..45 characters around the same-line threshold, descriptions of 1..80 marker words "
         "'D<n>x w<k> ...', explicit print-default on/off, value checks, requires/excludes constraints, usage line length 60..239) "
         "x display settings given through constructor flags (print hidden / print deprecated) and/or through the command-line "
@@ -83,10 +83,25 @@ def gen_cfg(rng):
         if argh.elem_of(a.slot) == "int" and rng.random() < 0.3:
             a.checks.append(rng.choice([("lower", 3, "int"), ("upper", 90, "int"), ("range", 1, 50, "int")]))
         cfg.args.append(a)
+    if rng.random() < 0.25:
+        # the positional argument (key "-"): has neither a short nor a long key, the usage lists it as "--"
+        pa = Arg("s9", None, None, spec="-")
+        pa.desc = make_desc(rng, n)
+        pa.init = "none"
+        r = rng.random()
+        if r < 0.3:
+            pa.mandatory = True
+        elif r < 0.45:
+            pa.hidden = True
+        elif r < 0.55:
+            pa.deprecated = True
+        if rng.random() < 0.4:
+            pa.printdef = rng.choice([0, 1])
+        cfg.args.insert(rng.randint(0, len(cfg.args)), pa)
     if len(cfg.args) >= 2:
         for _ in range(rng.choice([0, 1, 1, 2])):
             x, y = rng.sample(cfg.args, 2)
-            if y.mandatory or y in x.requires or y in x.excludes:
+            if y.mandatory or y in x.requires or y in x.excludes or "-" in (x.keyspec(), y.keyspec()):
                 continue
             (x.requires if rng.random() < 0.5 else x.excludes).append(y)
     if rng.random() < 0.6:
@@ -99,6 +114,8 @@ def visible(cfg, a, hidden, depr, mode):
         return None
     if (a.deprecated or a.replaced) and not depr:
         return None
+    if a.keyspec() == "-":
+        return "--" if mode == "all" else None
     if mode == "short":
         return "-" + a.short if a.short else None
     if mode == "long":
@@ -161,7 +178,8 @@ def gen_case(seed, idx, tier):
         sid = c.add("c18", lambda sid, w=words: argh.scenario_text(sid, "usage", cfg, w))
         c.meta["runs"].append(("usage", sid, words, hidden, depr, mode))
     # single-argument help
-    for a in rng.sample(cfg.args, min(len(cfg.args), 3)):
+    keyed = [a for a in cfg.args if a.keyspec() != "-"]
+    for a in rng.sample(keyed, min(len(keyed), 3)):
         keys = ([a.short] if a.short else []) + ([a.long] if a.long else [])
         k = rng.choice(keys)
         form = rng.choice(["eq", "word"])
